@@ -103,6 +103,9 @@ pub fn scan_tree(req: &Value) -> Value {
         if let Some(s) = o["exclude_matching_lines"].as_str() {
             opts.exclude_matching_lines = Some(s.to_string());
         }
+        if let Some(b) = o["ignore_ambiguous"].as_bool() {
+            opts.ignore_ambiguous = b;
+        }
         if let Some(s) = o["coerce"].as_str() {
             opts.coerce_separators = if s == "off" {
                 renamify_core::scanner::CoercionMode::Off
